@@ -201,6 +201,11 @@ def family(t, sd):
              'solve\ns.t.\n    abs{ a - (b - 1) } <= 2\n    min{ a, b - (a - 1) } >= 0\ndefine\n    a, b as IntegerRange(-3, 3)']
     for s in extra:
         items.append({'model': None, 'src': s, 'fam': 'hand'})
+    # programs found in the repository's own tests / examples / docs: iterations, blocks, arrays, graphs,
+    # compound and escaped names, every declaration form the maintainers exercise
+    import corpus
+    for pr in corpus.programs():
+        items.append({'model': None, 'src': pr['src'], 'fam': 'corpus'})
     lim = os.environ.get('VERIF_LIMIT')
     if lim:
         items = items[::max(1, len(items) // int(lim))]
@@ -280,7 +285,7 @@ def main(prop='C11'):
     evidence = {
         'level': 'translation_validation', 'tier': t, 'seed': sd,
         'coverage': {
-            'programs': len(items), 'by_status': by_status, 'by_family': {k: sum(1 for it in items if it['fam'] == k) for k in ('nesting', 'P', 'hand')},
+            'programs': len(items), 'by_status': by_status, 'by_family': {k: sum(1 for it in items if it['fam'] == k) for k in ('nesting', 'P', 'hand', 'corpus')},
             'disagreements_checked': stats['queries'], 'queries': stats,
             'obligations_per_program': ['formatted text accepted', 'objective value equal for all assignments', 'each constraint truth value equal for all assignments',
                                         'compiled linear models: same projection and best objective (exists/forall)', 'evaluated: format(format(t)) == format(t), declarations and names equal'],
